@@ -304,7 +304,7 @@ pub fn run_files(args: &[String]) {
     let files = real::list_proofs();
     let mut jobs: Vec<(usize, String, u64)> = Vec::new();
     let kinds = ["none", "value:commitment", "value:oods", "value:leaf", "value:auth", "value:fri_leaf", "value:memory", "swap:leaves", "swap:auth", "remove:leaf", "remove:auth", "remove:commitment",
-                 "remove:nonce", "dup:leaf", "dup:commitment", "segment:unknown", "segment:remove", "hex:memory", "hex:memory:+", "hex:memory:0x_", "hex:memory:0xg", "hex:memory:empty", "hex:memory:0x", "hex:annotation", "hex:in-list", "pow_bits:255", "pow_bits:256", "pow_bits:300",
+                 "remove:nonce", "dup:leaf", "dup:commitment", "segment:unknown", "segment:remove", "hex:memory", "hex:memory:+", "hex:memory:0x_", "hex:memory:0xg", "hex:memory:empty", "hex:memory:0x", "hex:annotation", "hex:annotation:0x0x", "hex:nonce:0x0x", "hex:in-list", "hex:in-list:0x0x", "pow_bits:255", "pow_bits:256", "pow_bits:300",
                  "nonce:0", "nonce:max64", "nonce:2^64", "steps:empty", "steps:huge", "steps:32+cosets40", "steps:31+cosets40", "n_steps:odd", "n_steps:2^31", "last_bound:100", "page:1", "page:top32", "page:wrap32", "page:first", "page:last-listed-first", "memory:rotate", "memory:swap01", "rc", "nvf", "dyn:value", "dyn:remove", "dyn:cpu_step=8", "dyn:cpu_step=3", "dyn:cpu_step=0", "dyn:cols_first+1", "dyn:cols_second+1", "dup:fri_commit", "steps:drop-last", "steps:append", "layout:unknown"];
     for (fi, _) in files.iter().enumerate() { for k in kinds { for r in 0..(if k == "none" { 1 } else { per }) { jobs.push((fi, k.to_string(), r)); } } }
     let res = par_map(&jobs, n_threads(), |_, (fi, kind, r)| {
@@ -341,6 +341,10 @@ pub fn run_files(args: &[String]) {
             "hex:memory" => { v["public_input"]["public_memory"][1]["value"] = json!("0xzz12"); }
             k if k.starts_with("hex:memory:") => { let n = v["public_input"]["public_memory"].as_array().unwrap().len(); let i = rng.below(n as u64) as usize;
                 v["public_input"]["public_memory"][i]["value"] = json!(match k { "hex:memory:+" => "+90", "hex:memory:0x_" => "0x_90", "hex:memory:0xg" => "0xg1", "hex:memory:space" => "0x90 ", "hex:memory:empty" => "", _ => "0x" }); }
+            // a repeated prefix is not a hex number
+            "hex:annotation:0x0x" => { if let Some(i) = pick(&leaves, &mut rng) { let l = ann[i].replace("Field Element(0x", "Field Element(0x0x"); set_ann(&mut v, i, l); } }
+            "hex:nonce:0x0x" => { if let Some(i) = pick(&find("Proof of Work: POW: Data"), &mut rng) { let l = ann[i].replace("Data(0x", "Data(0x0x"); set_ann(&mut v, i, l); } }
+            "hex:in-list:0x0x" => { if let Some(i) = pick(&find("OODS values: : Field Elements"), &mut rng) { let l = ann[i].replacen(", 0x", ", 0x0x", 1); set_ann(&mut v, i, l); } }
             "hex:annotation" => { if let Some(i) = pick(&leaves, &mut rng) { let l = ann[i].replace("Field Element(0x", "Field Element(0xzz"); set_ann(&mut v, i, l); } }
             "hex:in-list" => { if let Some(i) = pick(&find("OODS values: : Field Elements"), &mut rng) { let l = ann[i].replacen(", 0x", ", 0xq", 1); set_ann(&mut v, i, l); } }
             "pow_bits:255" => v["proof_parameters"]["stark"]["fri"]["proof_of_work_bits"] = json!(255),
